@@ -199,7 +199,8 @@ func checkC08(e *RunEnv) *CheckResult {
 	malformed := []string{"HEAD@{}", "HEAD@{x}", "HEAD@{-1}", "HEAD{1}", "head@{1}", "HEAD@{1}x", "xHEAD@{1}", "HEAD@{1}HEAD@{2}", "HEAD@{ 1}"}
 	modes := [][]string{{"--soft"}, {"--mixed"}, {"--hard"}, {}, {"--soft", "--hard"}}
 	spec := &Spec{
-		Seeds: []Seed{{"S2", seedS2()}, {"S3", seedS3()}, {"chain12", seedChain(12)}, {"S4", seedS4()}},
+		Seeds: []Seed{{"S2", seedS2()}, {"S3", seedS3()}, {"chain12", seedChain(12)}, {"S4", seedS4()},
+			{"percent-dir", append(seedS1(), Write("p%sq/x", "x v1\n"), Write("é/y z", "y\n"), Run("add", "p%sq", "é"), Run("commit", "-m", "c2"), Write("p%sq/x", "x v2\n"), Run("add", "p%sq"), Run("commit", "-m", "c3"))}},
 		Depth: e.pick(3, 5),
 		Steps: func(n *Node) []Step {
 			a := n.Abs()
